@@ -416,6 +416,15 @@ def run_shard(spec, R):
                 return darsia.stack(copies)
             s = copies[0]
             for k in range(1, count):
+                if time_kind == "date" and k == count - 1:
+                    # a refused request in between: an image dated before the series' last slab is not accepted; the
+                    # series stays what it was
+                    stale = origs[0].copy()
+                    stale.date = dates[0] - timedelta(seconds=5)
+                    try:
+                        s.append(stale)
+                    except Exception:
+                        R.count("refused_append_in_between")
                 if time_kind == "time":
                     s.append(copies[k], offset=offsets[k])
                 else:
